@@ -1,11 +1,16 @@
 use crate::run::Suite;
 use std::path::Path;
 
+pub mod c12;
 pub mod c21;
 
 pub fn for_property(p: &str) -> Vec<Suite> {
     match p {
         "C21" => c21::suites(),
+        "C12" => c12::suites_c12(),
+        "C13" => c12::suites_c13(),
+        "C14" => c12::suites_c14(),
+        "C15" => c12::suites_c15(),
         _ => vec![],
     }
 }
